@@ -1,16 +1,26 @@
 /-!
 # Model of the results-table writer (C04, shared with C06)
 
-Code modelled (deephyper 0.9.3 + the two `fix:` commits of branch `fix-g3`):
+Code modelled (deephyper 0.9.3 + the `fix:` commits merged into `/repo` main, i.e. the three
+commits of branch `fix-g3` and the C15 commits that restructured the dump path):
 
 * `HPOJob.standardize_output` / `HPOJob.set_output`   (`evaluator/_job.py`)
 * `Evaluator._on_done` (status, `timestamp_gather`, non-finite objective -> `"F"`,
   scalar **and** tuple/list — the tuple test is fix 2)   (`evaluator/_evaluator.py`)
-* `Evaluator._dump_jobs_done_to_csv_as_hpo_format` (the CSV writer state machine:
-  `_start_dumping`, `_columns_dumped`, `num_objective`, `jobs_done`; arity inferred from
-  the first non-failed job — fix 1)   (`evaluator/_evaluator.py`)
+* `Evaluator._dump_jobs_done_to_csv_as_hpo_format` + `Evaluator._write_rows_to_csv` (the CSV
+  writer state machine: `_start_dumping`, `_columns_dumped`, `num_objective`, `jobs_done`; arity
+  inferred from the first non-failed job — fix 1).  Nothing is opened while there is nothing to
+  write; the first write puts header + rows into `results.csv.tmp` and `os.replace`s it onto
+  `results.csv` (a `results.csv` that appeared meanwhile is renamed first), later writes append.
+  The model's `Table` is the content of `results.csv`: header written exactly once, then rows —
+  the temporary file and the atomic replace are crash-safety (C15) and leave no trace here.
+* `Search.search` ends with `dump_jobs_done_to_csv(flush=True)` (now *before* the "no results
+  file" test, so an all-failed search returns its table) and the Pareto step.
+* `Search.__init__` (`searchInit`, end of this file): rename of an existing `results.csv` and
+  reset of the given evaluator's dump state.
 * `Search.extend_results_with_pareto_efficient_indicator` is modelled in
-  `Proofs/Dump.lean` (it needs `Model/Pareto.lean`).
+  `Model/DumpPareto.lean` (it needs `Model/Pareto.lean`); it rewrites the file through
+  `results.csv.tmp` + `os.replace` as well.
 
 Values are a small JSON-like tree `Val`.  Python `int`/`float` are both `num` (cells are
 compared by value); `nan`/`inf`/`-inf` are `nonfin`; tuples and lists are `list`.
@@ -367,5 +377,51 @@ def runOpsWith (step : Bool → DumpState → DumpState × DumpOut) (st : DumpSt
 def runOps := runOpsWith dumpStep
 
 def allJobs (ops : List (List JobRec × Bool)) : List JobRec := ops.flatMap (·.1)
+
+/-! ### several `Search` objects on one `log_dir`
+
+`Search.__init__`: when `results.csv` exists it is renamed (`Evaluator.rename_existing_file`, the
+earlier table lives on in the backup file — C15) and `_columns_dumped = None`,
+`_start_dumping = False` are set on the evaluator it was given, so that an `Evaluator` instance
+that already dumped for an earlier `Search` writes a header into the new file.  `num_objective`,
+`jobs_done` and the job-id counter of a re-used evaluator are kept.  The file exists iff its
+header was written (`_write_rows_to_csv` creates it with the header, through a temporary file). -/
+
+/-- which evaluator a new `Search` object is given -/
+inductive EvalChoice
+  | fresh   -- a new `Evaluator` (or a plain callable: `Search` creates the evaluator itself)
+  | reuse   -- the `Evaluator` instance of the previous `Search`
+  deriving DecidableEq, Repr
+
+/-- `Search(problem, evaluator, log_dir=…)` : evaluator state and `results.csv` afterwards -/
+def searchInit (c : EvalChoice) (st : DumpState) (t : Table) : DumpState × Table :=
+  let ev := match c with
+    | .fresh => DumpState.fresh
+    | .reuse => st
+  match t.header with
+  | some _ => ({ ev with started := false, columns := none }, Table.empty)
+  | none => (ev, t)
+
+/-- the seeded change C04-3: the rename without the reset of the evaluator's dump state -/
+def searchInitNoReset (c : EvalChoice) (st : DumpState) (t : Table) : DumpState × Table :=
+  let ev := match c with
+    | .fresh => DumpState.fresh
+    | .reuse => st
+  match t.header with
+  | some _ => (ev, Table.empty)
+  | none => (ev, t)
+
+/-- a history over `Search` objects: each with its evaluator choice and its dump operations;
+the result is the table each `Search` object leaves in `results.csv` -/
+def runHistoryWith (init : EvalChoice → DumpState → Table → DumpState × Table)
+    (st : DumpState) (t : Table) :
+    List (EvalChoice × List (List JobRec × Bool)) → List Table
+  | [] => []
+  | (c, ops) :: rest =>
+    let s0 := init c st t
+    let r := runOps s0.1 s0.2 ops
+    r.2 :: runHistoryWith init r.1 r.2 rest
+
+def runHistory := runHistoryWith searchInit
 
 end DH.Dump
